@@ -23,28 +23,28 @@ def P(units, text, note, **kw):
 
 
 PROPS = {
-    "C01": P(["lifecycle", "handle", "provider", "store", "waitpay", "paystate"],
+    "C01": P(["lifecycle", "handle", "handle_slices", "provider", "store", "waitpay", "paystate"],
              "Proof (Verus, unbounded) on payment_lifecycle/resolve as extracted from src/htlc_manager.rs: every Resolve answer carries a key that is the preimage of a completed outgoing part of this hash or of its durable Succeeded record (hence preimage_of(hash)); the pay request carries the invoice and hash of this lifecycle.",
              LIFE_NOTE, assumptions=A_WORLD,
              not_covered=["CLN's own verification of the key", "SHA-256 itself (preimage_of is uninterpreted)"]),
-    "C02": P(["lifecycle", "store", "provider", "handle", "waitpay", "paystate"],
+    "C02": P(["lifecycle", "store", "provider", "handle", "handle_slices", "waitpay", "paystate"],
              "Proof (Verus, unbounded): at each of the ten resolve(..) call sites of payment_lifecycle a Fail answer requires !live(w) && !pay_running in the ghost world, starting from ANY world that satisfies only the durable invariant (every restart image), under the rely (every interleaving). Known finding F-C02-a (read error of the stored state) is reported per call site.",
              LIFE_NOTE, assumptions=A_WORLD,
              not_covered=["that CLN's pay is not still running after a plugin-only restart (not observable through the RPCs used)"]),
-    "C03": P(["lifecycle", "fee", "paystate", "provider", "waitpay", "handle"],
+    "C03": P(["lifecycle", "fee", "paystate", "provider", "waitpay", "handle", "handle_slices"],
              "Proof (Verus): the single pay call site requires fee_rhs(policy, amount) <= held total, max_fee <= held total (as read at initiation) - amount, the amount rule, the invoice of this hash, and that the counted HTLCs are still unanswered.",
              LIFE_NOTE, assumptions=A_WORLD + ["sum of simultaneously held HTLC amounts < 2^64 msat"]),
-    "C04": P(["lifecycle", "handle", "provider", "height", "paystate"],
+    "C04": P(["lifecycle", "handle", "handle_slices", "provider", "height", "paystate"],
              "Proof (Verus): at the pay call site max_cltv_delta <= max(0, min expiry of the HTLCs held at initiation - height returned by current_height() - cltv_delta) and <= policy delta; the arithmetic of src/htlc_manager.rs:576-583 is verified in place.",
              LIFE_NOTE, assumptions=A_WORLD),
     "C05": P(["lifecycle", "store", "provider", "waitpay"],
              "Proof (Verus): pay requires !live(w) && !pay_running; a Succeeded record is never followed by add_payment_attempt/pay; add_payment_attempt never overwrites a Succeeded record; the Free write of mark_failed is generation guarded (Released-phase rely).",
              LIFE_NOTE, assumptions=A_WORLD),
-    "C06": P(["lifecycle", "fee", "paystate", "tlv_dec", "handle", "store", "provider", "waitpay", "height", "tlv_enc"],
+    "C06": P(["lifecycle", "fee", "paystate", "tlv_dec", "handle", "handle_slices", "store", "provider", "waitpay", "height", "tlv_enc"],
              "Proof of the safety half (Verus): every normal return of payment_lifecycle has answered exactly once (resolve requires not yet released, lifecycle ensures released); no reachable panic in the functions under contract (unwrap/expect/todo!/overflow/index are obligations). Known finding F-C06-a (todo! reachable). Liveness clauses are not applicable to this technique (level_note).",
              LIFE_NOTE + " NOT APPLICABLE clauses: 'eventually', 'no later than one MPP timeout', deadlock freedom (liveness / scheduler fairness).",
              assumptions=A_WORLD),
-    "C07": P(["paystate", "lifecycle", "handle"],
+    "C07": P(["paystate", "lifecycle", "handle", "handle_slices"],
              "Proof (Verus, unbounded loop invariant): PaymentState::resolve gives every held listener exactly the one response and records it for late HTLCs; add_htlc never signals readiness once failure was requested; fail() is first-wins and only carries Fail; lifecycle resolves exactly once.",
              LIFE_NOTE + " oneshot::Sender::send is linear, so the prophecy `fate` is sound.", assumptions=A_WORLD,
              not_covered=["a rejecting HTLC arriving after readiness was signalled is by design ignored (statement says still-incomplete set)"]),
@@ -57,7 +57,7 @@ PROPS = {
     "C11": P(["lifecycle"],
              "Proof of the lower bound (Verus): a temporary_trampoline_failure produced with no attempt and no policy rejection implies now >= wait_started + mpp_timeout; every sleep is at most one mpp_timeout; timer/zero-time branches return without add_payment_attempt/pay. The upper bound is not applicable (timer/scheduler latency).",
              LIFE_NOTE + " NOT APPLICABLE clause: the upper bound on the failure time.", assumptions=A_WORLD),
-    "C12": dict(P(["fee", "handle"],
+    "C12": dict(P(["fee", "handle", "handle_slices"],
              "Proof (Verus, unbounded): fee_sufficient as extracted from src/messages.rs satisfies the exact integer predicate of the statement for all u64 x u64 x u32 x u32 outside the region of known finding F-C12-a, never answers true when the exact predicate is false anywhere, and has no overflow/panic. One proof covers checked and wrapping builds because no overflow occurs.",
              "Trusted: " + TB_COMMON + " vstd specs of checked_mul/checked_add. Known finding F-C12-a (amount*ppm >= 2^64 answers false) is excluded by region and reported as KNOWN-FINDING.",
              assumptions=[]),
@@ -69,7 +69,7 @@ PROPS = {
              "when_fails": "fee::messages::TrampolineRoutingPolicy::fee_sufficient::ensures#exact_outside_mul_overflow_region", "obligation": "fee::messages::TrampolineRoutingPolicy::fee_sufficient::kani#exact_outside_mul_overflow_region", "fn": "messages::TrampolineRoutingPolicy::fee_sufficient"},
             {"harness": "fee_sufficient_exact_inside_mul_overflow_region", "role": "witness", "tier": "thorough", "timeout": 300, "obligation": "fee::messages::TrampolineRoutingPolicy::fee_sufficient::kani#exact_inside_mul_overflow_region", "fn": "messages::TrampolineRoutingPolicy::fee_sufficient"},
         ], kani_quick=True),
-    "C14": P(["lifecycle", "store", "paystate", "handle"],
+    "C14": P(["lifecycle", "store", "paystate", "handle", "handle_slices"],
              "Proof of the two mechanisms (Verus): no RPC / channel wait / timer is started while the table lock is held (every such env call requires !lock_held; lock scope by ghost unlock marker E7). The scheduling statement itself is not applicable.",
              LIFE_NOTE + " NOT APPLICABLE clause: 'a frozen RPC of A does not delay B' (liveness of tokio's scheduler).", assumptions=A_WORLD),
 }
@@ -77,10 +77,10 @@ PROPS = {
 HANDLE_NOTE = ("Trusted: " + TB_COMMON + " env/invoice.rs (utf-8, str::parse, lightning_invoice accessors: parse_any/sig_ok/hash/amount/payee/route_hints are uninterpreted views of the dependency), "
                "env/bytes.rs; SerializedTlvStream::{get,remove,from_bytes,to_bytes,get_tu64} enter under their interface contracts (proved in units tlv_dec/tlv_enc where stated). "
                "handle_htlc is verified whole (closure body verbatim; payment_lifecycle enters as a contract-less stub, so the spawn is a hand-over that is not under contract) and additionally as two E6 statement slices (classification prefix with the no-side-effect clause, gate under the lock). Assumed: every table entry satisfies the representation invariant (entries are only created by PaymentState::new and changed by add_htlc/fail/resolve); a listener handed to add_htlc is eventually answered (liveness).")
-PROPS["C10"] = P(["handle", "tlv_dec"],
+PROPS["C10"] = P(["handle", "handle_slices", "tlv_dec"],
     "Proof (Verus): extract_trampoline_info/check_htlc verbatim: Trampoline(t) only if the metadata decodes, carries record 33001 whose utf-8 text parses to t.invoice, signature valid, invoice hash == HTLC hash, payee = signing key, amount rule (invoice amount, agreeing well-formed amount field; else exactly the declared amount), policy = configured; self-route-hint gate including the not-found half of the search (E8 closure contracts + env find).",
     HANDLE_NOTE, assumptions=["lightning_invoice parse/check_signature/get_payee_pub_key/route_hints behave as their uninterpreted views", "std iter().find returns the first match or None if no element matches (env HintIter::find)"])
-PROPS["C13"] = P(["handle", "tlv_enc", "tlv_dec"],
+PROPS["C13"] = P(["handle", "handle_slices", "tlv_enc", "tlv_dec"],
     "Proof (Verus): the classification prefix of handle_htlc returns Continue (payload None, or the input records minus the first type-16 record, byte for byte and in order) or the self-hint Fail, with the ghost world unchanged (no RPC, no table access) on every path; check_htlc/default_response verbatim.",
     HANDLE_NOTE, assumptions=["get/remove/to_bytes contracts (first record of a type; concatenation of record encodings)"])
 
